@@ -238,6 +238,10 @@ def peer_cases(r, n, hostile=0.35):
         tags = ["-"] if r.random() < 0.3 else [str(r.randrange(1, 4))]
         if r.random() < 0.4:
             tags.append(str(r.randrange(4, 7)))
+        if d == "b1" and r.random() < 0.3:
+            # a transfer to the second resource, with the same or another Request-Tag
+            tags.append(r.choice([tags[0], str(r.randrange(4, 7)), ""]) + "u")
+            tags = tags[-2:] if r.random() < 0.5 else tags
         sizeopt = r.choice(["-", str(ln), str(ln)])
         items = []
         order = list(range(nb))
